@@ -59,6 +59,23 @@ def run(ctx):
     ctor_total_rule(ctx)
     subtraction_audit(ctx)
     domain_audit(ctx)
+    # records that end in an ambiguous base / are all ambiguous: the k-mer iterator's position discipline
+    from . import c01, c07
+    c01.run(dep(ctx, "C16", "C01"))
+    # records that yield no k-mer at all: a pass that read records is a chunk, with its files, whatever it counted
+    fcc_, fcn_ = ctx.view(c07.CHUNK), ctx.view(c07.COUNT)
+    if fcc_ is not None and fcn_ is not None:
+        c07.chunk_rule(dep(ctx, "C16", "C07"), fcn_, fcc_)
+    # `min` ends cleanly for every thread count: workers take under the lock and write whole lines under the lock
+    d10_ = dep(ctx, "C16", "C10")
+    fs2_, fm2_ = ctx.view(c10.S2M), ctx.view(c10.M2S)
+    for fv_ in (fs2_, fm2_):
+        if fv_ is not None:
+            rule_locked_take(d10_, "C10.L", fv_, 1)
+    if fs2_ is not None:
+        c10.s2m_rules(d10_, fs2_)
+    if fm2_ is not None:
+        c10.m2s_rules(d10_, fm2_)
     # no k-mers at all (empty file, records shorter than k): the counts table is empty and must load as empty
     from . import c08
     fcov = ctx.view(c08.COV)
